@@ -22,20 +22,22 @@ ID = 'C14'
 LEVEL = 'exploration'
 RULE = ('case = seeded tree + layout (nested / compressed sub-Manifests, hostile paths) x '
         'sign in {None, True, False} x top-level originally {signed, unsigned} x key id '
-        '{default, explicit, wrong} x secret key {usable, absent} x {library, CLI} x '
+        '{default, explicit, second of two, wrong} x secret key {usable, absent, gpg '
+        'killed, arriving after a first failed save on the same loader} x {library, CLI} x '
         'optional edit so that the signed text is new. Non-trivial = a signature is '
         'expected or a signing failure is expected; distinct = hash of the case.')
 ANCHORS = ['recursiveloader:ManifestRecursiveLoader.save_manifest',
            'manifest:ManifestFile.dump',
            'openpgp:SystemGPGEnvironment.clear_sign_file',
            'openpgp:SystemGPGEnvironment.verify_file']
-REQUIRED = ['openpgp:SystemGPGEnvironment.clear_sign_file', 'expect:signed',
+REQUIRED = ['openpgp:SystemGPGEnvironment.clear_sign_file', 'late_retries',
+            'signer_checked:second', 'expect:signed',
             'expect:plain', 'expect:failure', 'gpg_verify_runs', 'submanifests_read']
 ASSUMPTIONS = ['GnuPG 2.2 with gpg-agent; vendored test key (tests/keydata.py)',
                'on a signing failure the top-level file may be left empty/truncated; a '
                'plain Manifest WITH entries counts as silently unsigned']
 
-N = {'quick': 150, 'thorough': 4000}
+N = {'quick': 450, 'thorough': 6000}
 PER_UNIT = 6
 _homes = {}
 
@@ -50,11 +52,26 @@ def setup_worker(ctx):
 
 
 def home(kind):
-    """'secret': usable secret key; 'public': only the public key (signing must fail)"""
+    """'secret': usable secret key; 'public': only the public key (signing must fail);
+    'two': the vendored secret key (default) plus a second, generated one"""
     if kind not in _homes:
         h = gpgenv.Home(direct_trust=True)
-        h.import_key(keys.PRIVATE_KEY if kind == 'secret' else keys.VALID_PUBLIC_KEY)
+        h.import_key(keys.VALID_PUBLIC_KEY if kind == 'public' else keys.PRIVATE_KEY)
         h.set_trust(keys.KEY_FINGERPRINT, 6)
+        if kind == 'two':
+            rc, out, err = h.gpg(['--pinentry-mode', 'loopback', '--passphrase', '',
+                                  '--quick-gen-key', 'Second Key <second@example.com>',
+                                  'ed25519', 'sign', 'never'])
+            rc, out, err = h.gpg(['--with-colons', '--list-secret-keys',
+                                  'second@example.com'])
+            fprs = [ln.split(':')[9] for ln in out.decode().splitlines()
+                    if ln.startswith('fpr:')]
+            if not fprs:
+                raise RuntimeError('cannot generate a second key: %r' % err[-300:])
+            h.second_fpr = fprs[0]
+            h.set_trust(h.second_fpr, 6)
+            with open(os.path.join(h.dir, 'gpg.conf'), 'a') as f:
+                f.write('default-key %s\n' % keys.KEY_FINGERPRINT)
         _homes[kind] = h
         atexit.register(h.close)
     return _homes[kind]
@@ -76,8 +93,27 @@ def judge(ctx, root, case):
         orig_signed = False     # (the stand-in could not verify anything)
     top_name = case.get('top', 'Manifest')
     top = os.path.join(root, top_name)
-    h = home('secret' if hk == 'killed' else hk)
-    signer = home('secret')
+    late = None
+    if hk == 'late':
+        # a home of its own that gets the secret key only after the first attempt
+        late = gpgenv.Home(direct_trust=True)
+        late.import_key(keys.VALID_PUBLIC_KEY)
+        late.set_trust(keys.KEY_FINGERPRINT, 6)
+        h = late
+    else:
+        h = home('secret' if hk == 'killed' else hk)
+    signer = home('two' if hk == 'two' else 'secret')
+    try:
+        _judge(ctx, root, case, sign, orig_signed, keyid, hk, top_name, top, h, signer)
+    finally:
+        if late is not None:
+            late.close()
+
+
+def _judge(ctx, root, case, sign, orig_signed, keyid, hk, top_name, top, h, signer):
+    from gemato.exceptions import GematoException, OpenPGPSigningFailure
+    from gemato.openpgp import SystemGPGEnvironment
+    from gemato.recursiveloader import ManifestRecursiveLoader
     if orig_signed:
         with open(top, 'rb') as f:
             raw = f.read()
@@ -87,8 +123,11 @@ def judge(ctx, root, case):
             f.write(mtext.compress(mtext.suffix_of(top_name) or 'plain',
                                    signed.encode('utf8')))
     expect_signed = bool(sign) or (sign is None and orig_signed)
-    can_sign = hk == 'secret' and keyid != 'wrong'
+    can_sign = hk in ('secret', 'two', 'late') and keyid != 'wrong'
     expect = 'plain' if not expect_signed else ('signed' if can_sign else 'failure')
+    want_fpr = keys.KEY_FINGERPRINT
+    if keyid == 'second':
+        want_fpr = home('two').second_fpr
     ctx.count('expect:' + expect)
     ctx.case(sig=('c14', sign, orig_signed, keyid, hk, case['api'], top_name,
                   case.get('watermark')), case=case, nontrivial=expect != 'plain',
@@ -107,7 +146,8 @@ def judge(ctx, root, case):
         os.chmod(script, 0o755)
         go.GNUPG = script
     os.environ['GNUPGHOME'] = h.dir
-    kid = {'default': None, 'explicit': keys.KEY_ID, 'wrong': '0xDEADBEEFDEADBEEF'}[keyid]
+    kid = {'default': None, 'explicit': keys.KEY_ID, 'wrong': '0xDEADBEEFDEADBEEF',
+           'second': getattr(h, 'second_fpr', None)}[keyid]
     outcome = None
     try:
         if case['api'] == 'cli':
@@ -140,7 +180,24 @@ def judge(ctx, root, case):
                               'top-level Manifest was loaded as unsigned', case)
                 return
             m.update_entries_for_directory('')
-            m.save_manifests(force=case.get('force', False))
+            if hk == 'late' and expect_signed:
+                # history on one loader: the first save cannot sign (no secret key),
+                # the key arrives, the save is repeated
+                try:
+                    m.save_manifests(force=True)
+                    first = 'ok'
+                except OpenPGPSigningFailure:
+                    first = 'signfail'
+                ctx.count('late_first_attempt:' + first)
+                if first == 'ok':
+                    ctx.violation('signing-failure-not-reported', 'signing cannot work '
+                                  '(no secret key yet) but save reported success', case)
+                    return
+                h.import_key(keys.PRIVATE_KEY)
+                m.save_manifests(force=True)
+                ctx.count('late_retries')
+            else:
+                m.save_manifests(force=case.get('force', False))
             top_name = m.top_level_manifest_filename
             outcome = ('ok', None)
     except OpenPGPSigningFailure as exc:
@@ -218,13 +275,18 @@ def judge(ctx, root, case):
         ctx.count('gpg_verify_runs')
         fprs = [ln.split()[2] for ln in status.split('\n')
                 if ln.startswith('[GNUPG:] VALIDSIG')]
-        if rc != 0 or keys.KEY_FINGERPRINT not in [f for f in fprs] and \
-                not any(ln.endswith(keys.KEY_FINGERPRINT) for ln in status.split('\n')
-                        if 'VALIDSIG' in ln):
+        if rc != 0 or not fprs:
             ctx.violation('written-signature-invalid', 'gpg --verify rejects the '
                           'written top-level Manifest (rc=%d)' % rc, case,
                           dict(detail, status=status[-600:]))
             return
+        if want_fpr not in fprs:
+            ctx.violation('signed-with-other-key:' + keyid, 'the written top-level '
+                          'Manifest is signed by %r, the signing key (%s) is %s'
+                          % (fprs, keyid, want_fpr), case,
+                          dict(detail, status=status[-600:]))
+            return
+        ctx.count('signer_checked:' + keyid)
         rc, clear, st = signer.decrypt(ttext.encode('utf8'))
         try:
             authed = [adapt.norm_model(e) for e in mtext.parse(clear.decode('utf8'))]
@@ -276,11 +338,20 @@ def gen_case(rng, root):
         'sign': rng.choice([None, None, True, False]),
         'orig_signed': rng.random() < 0.5,
         'keyid': rng.choice(['default', 'default', 'explicit', 'wrong']),
-        'home': rng.choice(['secret', 'secret', 'secret', 'public', 'killed']),
+        'home': rng.choice(['secret', 'secret', 'secret', 'public', 'killed', 'two',
+                            'two', 'late']),
         'api': rng.choice(['lib', 'lib', 'cli']),
         'force': rng.random() < 0.5,
         'watermark': rng.choice([None, None, 0, 10**6]),
     })
+    if case['home'] == 'two':
+        case['keyid'] = rng.choice(['default', 'explicit', 'second', 'second', 'wrong'])
+    if case['home'] == 'late':
+        case['api'] = 'lib'
+        case['force'] = True
+        # (no re-compression: what a loader holds after a save that failed half-way
+        # through renaming Manifests is not defined by any property)
+        case['watermark'] = None
     subs = [m for m, md in layout['mans'].items() if md['parent'] is not None]
     if subs and rng.random() < 0.25:
         # a sub-Manifest that carries a valid cleartext signature of its own on disk
